@@ -104,7 +104,8 @@ struct EmitContext {
     /// Fully-qualified authored label targets (e.g. `knot.stitch.choice`) mapped
     /// to their emitted runtime paths (e.g. `knot.stitch.c-0`).
     qualified_choice_labels: BTreeMap<String, String>,
-    /// For each function, whether each parameter position is `ref`.
+    /// For each function, knot and stitch (by absolute path), whether each parameter
+    /// position is `ref`.
     function_ref_param_positions: BTreeMap<String, Vec<bool>>,
     /// Unqualified flow/stitch target names mapped to their absolute path
     /// when the name is unique across the story.
@@ -156,6 +157,27 @@ fn collect_unqualified_flow_targets(story: &ParsedStory) -> BTreeMap<String, Str
         .into_iter()
         .filter_map(|(name, maybe_path)| maybe_path.map(|path| (name, path)))
         .collect()
+}
+
+/// Records, for a function, knot or stitch (keyed by its absolute path), which of its
+/// parameters are `ref`: a call, divert, tunnel or thread passes those as variable pointers.
+fn collect_ref_param_positions(
+    flow: &Flow,
+    absolute_path: &str,
+    positions: &mut BTreeMap<String, Vec<bool>>,
+) {
+    positions.insert(
+        absolute_path.to_owned(),
+        flow.parameters
+            .iter()
+            .map(|parameter| flow.ref_parameters.contains(parameter))
+            .collect(),
+    );
+
+    for child in &flow.children {
+        let child_path = format!("{absolute_path}.{}", child.name);
+        collect_ref_param_positions(child, &child_path, positions);
+    }
 }
 
 impl EmittedContainer {
@@ -345,20 +367,10 @@ impl EmitContext {
                 }
             }
         }
-        let function_ref_param_positions = story
-            .flows()
-            .iter()
-            .filter(|flow| flow.is_function)
-            .map(|flow| {
-                (
-                    flow.name.clone(),
-                    flow.parameters
-                        .iter()
-                        .map(|parameter| flow.ref_parameters.contains(parameter))
-                        .collect(),
-                )
-            })
-            .collect();
+        let mut function_ref_param_positions = BTreeMap::new();
+        for flow in story.flows() {
+            collect_ref_param_positions(flow, &flow.name, &mut function_ref_param_positions);
+        }
         let mut context = Self {
             global_variables: story.globals().iter().map(|var| var.name.clone()).collect(),
             top_flow_names: story.flows().iter().map(|flow| flow.name.clone()).collect(),
